@@ -38,7 +38,7 @@ def bsStep (O : Leaf α) (t bg : RGB) (thr target c h : α) (up : Bool) (s : BS 
   let k := O.contrast cand bg
   if Num.gt d thr then shrink else
   if Num.ge k target then
-    let s' := if Num.lt d s.bestDE then { s with best := some cand, bestDE := d, bestC := k } else s
+    let s' := if Num.lt s.bestC target || Num.lt d s.bestDE then { s with best := some cand, bestDE := d, bestC := k } else s
     if up then { s' with high := m } else { s' with low := m }
   else
     let s' : BS α := if up then { s with low := m } else { s with high := m }
